@@ -116,8 +116,9 @@ type World struct {
 	llUpdates []llUpdate
 	llOffered [][]Op // every `higher` offered (including failed ones)
 
-	models      []*Node // models[i] = reference content after i executed batches
-	nIssued     int     // batches issued (including a pending one)
+	models      []*Node      // models[i] = reference content after i executed batches
+	specs       []*BatchSpec // specs[i] = the (i+1)-th executed batch
+	nIssued     int          // batches issued (including a pending one)
 	pending     *vs.Thread
 	pendingSpec *BatchSpec
 	pendingErr  *error
